@@ -349,15 +349,8 @@ class Node(ModelElement):
         node_id = self.topo.graph_model.find_component_by_name(parent_node_id=self.node_id,
                                                                component_name=name)
 
-        for i in self.components[name].interface_list:
-            # disconnect if connected to a network service
-            peers = i.get_peers(itype=InterfaceType.ServicePort)
-            if peers:
-                if len(peers) == 1:
-                    # disconnect from its parent service
-                    self.topo.get_parent_element(peers[0]).disconnect_interface(i)
-                else:
-                    raise TopologyException(f'Interface {i.name} has more than one peer, this is a model error.')
+        # disconnect the component's interfaces and their sub-interfaces from network services
+        self.topo._disconnect_interfaces(self.components[name].interface_list)
         # remove component, its network service and interfaces (if present)
         self.topo.graph_model.remove_component_with_nss_cps_and_links(node_id=node_id)
 
